@@ -207,7 +207,7 @@ def worker(k, todo, jobs):
             sh("git checkout -- .", cwd=wt)
             before, after = apply(wt, m)
             rec = dict(m, before=before.strip()[:160], after=after.strip()[:160])
-            rc, o = sh("cargo test --workspace --no-fail-fast --offline 2>&1 | grep -E '^test result|^error|FAILED|panicked' | head -40", cwd=wt, env=env, timeout=3000)
+            rc, o = sh("cargo test --workspace --no-fail-fast --offline 2>&1 | grep -E '^test result|^error|FAILED|panicked' | head -40", cwd=wt, env=env, timeout=1200)
             results = [l for l in o.splitlines() if l.startswith("test result")]
             if any(l.startswith("error") for l in o.splitlines()) and len(results) < 6:
                 rec["status"] = "does-not-compile"
@@ -236,6 +236,9 @@ def worker(k, todo, jobs):
                     rec["checks"][c] = {"rc": code, "classes": classes, "inconclusive": inc, "s": round(time.time() - t1)}
                     if code == 1:
                         break   # detected; the remaining checks are not needed for the verdict
+                    if code == 3 and ("timeout" in inc or any("watchdog" in x for x in inc)):
+                        rec["hang"] = True   # the mutant makes the library hang: the other checks would only time out as well
+                        break
                 rec["detected_by"] = [c for c, v in rec["checks"].items() if v["rc"] == 1]
             rec["wall_s"] = round(time.time() - t0)
             rec["ts"] = time.time()
